@@ -1,5 +1,5 @@
 /-
-C15 — discharging `L3Contracts` (NrfProofs/C15Contract.lean), part 2: `send(buf, send_only=True)`
+C15 — discharging `C15Contracts` (NrfProofs/C15Contract.lean), part 2: `send(buf, send_only=True)`
 and `resend(send_only=True)` on an idle transmitter (`TxS`), in any world — `c15contracts`.
 
 The proof follows the driver step by step (`exec`), tracking only the transmitter's own radio:
@@ -335,7 +335,7 @@ theorem c15_resend_ok (s : DrvState) (hw : s.Wf) (hc : s.cfg.config &&& 3 = 2) (
       exact List.suffix_refl _
 
 /-- **both contracts of `NrfProofs/C15Contract.lean` hold** -/
-theorem c15contracts : L3Contracts where
+theorem c15contracts : C15Contracts where
   send_ok := c15_send_ok
   resend_ok := c15_resend_ok
 
